@@ -876,15 +876,6 @@ func (c *c10) seek(i int, op C10Op) *sim.Violation {
 			dir += "/nostart"
 		}
 		sv := sim.Violatef("seek", "seek/mismatch/"+dir, "step %d: Seek(prefix=%x, start=%s, %s, stop=%d): %s", i, prefix, fromName(start), dir, op.Max, d)
-		if strings.HasPrefix(dir, "backward/start") {
-			// backward seeks with a Start are a recorded finding (known_findings.json): the run goes on so
-			// that it cannot mask anything else; it is reported only if nothing else fails in this run.
-			if c.soft == nil {
-				c.soft = sv
-			}
-			c.out.Probes["seek_backward_start_mismatch"]++
-			return nil
-		}
 		return sv
 	}
 	if op.Back {
